@@ -38,6 +38,11 @@ func directed() []rpcsim.Directed {
 			"start 1 1 7", "sret 1 ok", "ack 1", "adv 3", "run 1"}},
 		{Sc: one("d14-result-and-timer", 2, res0, adv3), Repeat: 40, Script: []string{
 			"start 1 1 7", "sret 1 ok", "nres 0 1 100", "nrun 0", "nrun 0", "nwrite 0 ok", "adv 3", "run 1"}},
+		// a batch in which an id nobody waits for precedes the pending one: the ack must still count
+		{Sc: one("ack-batch-unknown-first", 2, rpcsim.Option{Kind: "ack", IDs: []int64{90, 1}}, adv3), Script: []string{
+			"start 1 1 7", "sret 1 ok", "ack 90 1", "adv 3", "run 1", "run 1"}},
+		{Sc: one("ack-batch-repeated-id", 2, rpcsim.Option{Kind: "ack", IDs: []int64{1, 1, 91}}, adv3), Script: []string{
+			"start 1 1 7", "sret 1 ok", "ack 1 1 91", "adv 3", "run 1"}},
 		// the timer needs the whole interval
 		{Sc: one("interval-split", 2, adv2, adv1, adv3), Script: []string{
 			"start 1 1 7", "sret 1 ok", "adv 2", "adv 1", "run 1", "sret 1 ok", "adv 3", "run 1", "sret 1 ok"}},
@@ -72,7 +77,7 @@ func dfsScenarios() []*rpcsim.Scenario {
 }
 
 func run(c *hc.Ctx) error {
-	k := &rpcsim.Check{C: c, Prop: "C25", W: rpcsim.WeightsC25,
+	k := &rpcsim.Check{C: c, Prop: "C25", Src: rpcsim.ReadSrc(hc.NewFacts("C25", c.Repo)), W: rpcsim.WeightsC25,
 		Nontrivial: func(s *rpcsim.Sim) bool { return s.Stats["timer-fired"] > 0 || s.Stats["ack-hit"] > 0 }}
 	if err := k.RunDirected(directed()); err != nil {
 		return err
